@@ -99,11 +99,17 @@ def seq_actions(stmts, rules, what):
     def walk(sts):
         for st in sts:
             if isinstance(st, ast.With):
+                guards = False
                 for it in st.items:
                     n = call_name(it.context_expr) or dotted(it.context_expr)
                     need(n is not None and (n.endswith("suppress") or n.endswith("_lock") or n.endswith("lock")),
                          "unrecognised context manager in " + what)
+                    if n.endswith("suppress"):
+                        need(any(dotted(a) == "Exception" for a in it.context_expr.args), "suppress(...) of something else than Exception in " + what)
+                        guards = True
                 walk(st.body)
+                if guards:
+                    acts.append("AGuardEnd")     # an exception raised inside is swallowed here: the rest of the block is skipped
             elif isinstance(st, ast.Try):
                 need(not st.orelse and not st.finalbody, "try with else/finally in " + what)
                 walk(st.body)
@@ -111,6 +117,9 @@ def seq_actions(stmts, rules, what):
                     for s2 in hd.body:
                         need(isinstance(s2, ast.Expr) and is_log_call(s2.value) or isinstance(s2, ast.Pass),
                              "except branch in %s does more than logging" % what)
+                # a hook exception is caught here (and only logged): what follows the hook inside this try is skipped
+                if any("Exception" in handler_classes(hd) for hd in st.handlers):
+                    acts.append("AGuardEnd")
             elif isinstance(st, ast.Expr) and isinstance(st.value, ast.Call):
                 if is_log_call(st.value):
                     continue
@@ -331,7 +340,8 @@ def thread_facts(tree, h, close_acts, nhook):
         need(isinstance(after[i].value, ast.Constant) and after[i].value.value is None, "Worker.run: self.job assigned something else than None")
     done_at = after.index(nd[0])
     job_cleared_first = all(i < done_at for i in clear)
-    cleanup = cleanup + ["ASlot"]
+    # (Worker.run contains whatever escapes the job: a guarded block ends before the worker is handed back)
+    cleanup = cleanup + ["AGuardEnd", "ASlot"]
     # refused handshake
     hc = find_func(mod, "handleConnection", "ClientConnectionJob")
     tries = [st for st in hc.body if isinstance(st, ast.Try)]
@@ -388,6 +398,9 @@ def mux_facts(tree, h, close_acts, nhook):
             return list(close_acts)
         return None
     cleanup = seq_actions(iff.body, rules, "`if not active:` branch of SocketServer_Multiplex.events")
+    for i, a in enumerate(cleanup):
+        if a == "AHook":
+            need("AGuardEnd" in cleanup[i + 1:], "events: an exception of the disconnect hook would leave the event loop")
     # registration happens for accepted connections only
     need(any(call_name(c) == "self.selector.register" for c in ast.walk(branch[0]) if isinstance(c, ast.Call)),
          "events: accepted connections are not registered")
@@ -457,7 +470,7 @@ def tracking_facts(tree):
 def shape_text(name, f, escapes_security, escapes_callback):
     ends = "fun x => match x with %s end" % " | ".join("%s => %s" % (x, cbool(f["ends"][x])) for x in EXC)
     return ("Definition %s : shape := {|\n  sh_cleanup := %s;\n  sh_reject := %s;\n  sh_ends := %s;\n"
-            "  sh_escapes_security := %s;\n  sh_escapes_callback := %s;\n  sh_idle_timeout := %s |}.\n") % (
+            "  sh_escapes_security := %s;\n  sh_escapes_callback := %s;\n  sh_idle_timeout := %s;\n  sh_hook_raises := fun _ => false |}.\n") % (
         name, clist(f["cleanup"]), clist(f["reject"]), ends, cbool(escapes_security), cbool(escapes_callback),
         cbool(f["idle_timeout"]))
 
